@@ -646,13 +646,59 @@ def run(ck):
             if not ps:
                 return {None}
             return {H.fmt_text(sorted(ps, key=lambda s2: (s2['node']['sp'][1], s2['node']['sp'][2]))[-1])}
+        def seqs(e, cap=64):
+            """all sequences of templates printed along the paths through e (as tuples)."""
+            k = e.get('k')
+            if k == 'Block':
+                parts = [st.get('e') or st.get('init') or st for st in e.get('stmts', [])] + ([e['e']] if 'e' in e else [])
+                out = {()}
+                for part in parts:
+                    nxt = set()
+                    for a in out:
+                        for b in seqs(part, cap):
+                            nxt.add(a + b)
+                    out = set(list(nxt)[:cap])
+                return out
+            if k == 'If':
+                return seqs(e['then'], cap) | (seqs(e['els'], cap) if 'els' in e else {()})
+            if k == 'Match':
+                out = set()
+                for a in e['arms']:
+                    out |= seqs(a['body'], cap)
+                return out
+            if k in ('Try', 'Semi', 'Expr', 'AddrOf'):
+                return seqs(e['e'], cap)
+            ps = sorted(prints_in(e), key=lambda s2: (s2['node']['sp'][1], s2['node']['sp'][2]))
+            return {tuple((H.fmt_text(x) or '').strip() for x in ps)}
+
+        TRANSFER = re.compile(r'^(goto \{\d\};|return( \{\d\})?;|Q_UNREACHABLE\(\);)$')
+
+        def stmt(lines, i):
+            """parse one C++ statement starting at line i: (every path through it transfers control, index after it)"""
+            if i >= len(lines):
+                return (False, i)
+            ln = lines[i]
+            if re.match(r'^if \(.*\)$', ln):
+                t1, j2 = stmt(lines, i + 1)
+                if j2 < len(lines) and lines[j2] == 'else':
+                    t2, k2 = stmt(lines, j2 + 1)
+                    return (t1 and t2, k2)
+                return (False, j2)       # no else: the false case runs on
+            return (bool(TRANSFER.match(ln)), i + 1)
+
+        def terminated(lines):
+            i, last = 0, False
+            while i < len(lines):
+                last, i = stmt(lines, i)
+            return last
         if m is not None:
             for arm in m['arms']:
-                ts = tails(arm['body'])
-                good = all(t is not None and re.match(r'^(goto \{\d\};|return( \{\d\})?;|Q_UNREACHABLE\(\);)', t) for t in ts)
-                ck.ob('R6.6', 'block-ends-in-control-transfer|%s' % pp(arm['pat'], maxlen=50), good and bool(ts), L.loc(arm),
-                      'last line printed on every path: %s' % sorted(t.strip() for t in ts if t) if good else
-                      'on some path through this arm the last thing printed is %s: the C++ block runs on into the next label' % sorted((t.strip() if t else '<nothing>') for t in ts), fn=wbb['path'])
+                ss = seqs(arm['body'])
+                bad = sorted(' | '.join(x) or '<nothing>' for x in ss if not terminated(list(x)))
+                ts = ss
+                ck.ob('R6.6', 'block-ends-in-control-transfer|%s' % pp(arm['pat'], maxlen=50), not bad and bool(ss), L.loc(arm),
+                      'every path through this arm prints a statement sequence whose last statement transfers control on all of its branches: %s' % sorted(' | '.join(x) for x in ss)[:3] if not bad else
+                      'on some path through this arm the printed C++ is `%s`: its last statement does not transfer control on every branch, so the block runs on into the next label' % bad[0], fn=wbb['path'])
             ck.floor('R6.6', len(m['arms']), 5, 'terminator arms in write_basic_block')
         gotos = [c for c in H.calls_in(wbb['body']) if c.get('m') == 'format_basic_block_ref']
         ck.ob('R6.6', 'gotos-use-label-formatter', len(gotos) == 3, L.loc(wbb['body']), '%d jump targets printed through format_basic_block_ref (Br: 1, BrCond: 2)' % len(gotos))
